@@ -294,6 +294,9 @@ class ActionEval:
         if re.search(r'<(str|String|&str|&String) as (ToOwned|ToString|Clone)>::|<&?str as Into<String>>::into$|<String as From<&str>>::from$|<String as Deref>::deref$|<Vec<.*> as Deref>::deref$|String::as_str$|must_use::<String>$|<.* as Clone>::clone$', n):
             self.used_models.add('to_owned / to_string / into / clone / deref = identity')
             return ret(vals[0])
+        if re.search(r'<str as Index<.*Range.*<usize>>>::index$|<String as Index<.*Range.*<usize>>>::index$', n):
+            # a slice of some text by offsets: its value depends on positions (explicit node; M5 rejects it in tree content)
+            return ret(('slice', vals[0], vals[1]))
         if re.search(r'<\w+ as Into<String>>::into$|<\w+ as Into<std::string::String>>::into$', n):
             return ret(vals[0])
         if re.search(r'<Vec<.*> as From<\[.*; \d+\]>>::from$', n):
